@@ -28,7 +28,9 @@ Pseus(fs) == { i \in DOMAIN fs : IsPseudo(fs[i]) }
 Remove(fs, i) == SubSeq(fs, 1, i - 1) \o SubSeq(fs, i + 1, Len(fs))
 BadPseudoValues(name) ==
     CASE name = N_METHOD -> { <<71, 32, 84>>, <<>>, <<71, 10>> }
-      [] name = N_STATUS -> { <<50, 48>>, <<50, 48, 48, 48>>, <<97, 98, 99>>, <<48, 57, 57>>, <<>> }
+      [] name = N_STATUS -> { <<50, 48>>, <<50, 48, 48, 48>>, <<97, 98, 99>>, <<48, 57, 57>>, <<>>,
+                              \* what an integer parser would let through: leading zero, sign, more leading zeros, hexadecimal-looking
+                              <<48, 50, 48, 48>>, <<43, 52, 48, 52>>, <<43, 50, 48, 48>>, <<48, 48, 50, 48, 48>>, <<45, 50, 48, 48>>, <<50, 48, 97>> }
       [] name = N_AUTHORITY -> { <<>> }
       [] name = N_PATH -> { <<47, 32, 120>>, <<47, 1>>, <<>> }
       [] OTHER -> { <<>> }
